@@ -32,8 +32,13 @@ def build_pool(d):
     os.makedirs(os.path.join(src, "sub", "deep"))
     rnd = random.Random(5)
     for i in range(600):
-        with open(os.path.join(src, "many", "e%04d%s" % (i, "x" * (i % 17))), "wb") as fh:
-            fh.write(b"%d" % i if i % 3 else b"")
+        pth = os.path.join(src, "many", "e%04d%s" % (i, "x" * (i % 17)))
+        if i % 5 == 4:
+            # inodes of different sizes (symlinks, files with block lists): inodes run across metadata block boundaries
+            os.symlink("t" * (1 + i % 23), pth)
+            continue
+        with open(pth, "wb") as fh:
+            fh.write(rnd.randbytes(4096 * (1 + i % 3) + i) if i % 7 == 6 else (b"%d" % i if i % 3 else b""))
     with open(os.path.join(src, "big"), "wb") as fh:
         fh.write(rnd.randbytes(3 * 4096 + 777))
     with open(os.path.join(src, "sparse"), "wb") as fh:
@@ -105,7 +110,7 @@ def cases(draw, tier="quick"):
     ops = []
     for _ in range(nops):
         kind = draw(st.sampled_from(["inode", "inode", "lsdir", "lsdir", "lspart", "resolve", "inum", "read", "read", "block", "frag", "stream", "cross", "xattr",
-                                     "xdesc", "id", "mseek", "mseek", "root"]))
+                                     "xdesc", "id", "mseek", "mseek", "root", "iprobe"]))
         ops.append((kind, draw(st.integers(0, 10 ** 6)), draw(st.integers(0, 10 ** 6)), draw(st.integers(0, 10 ** 6)), draw(st.integers(0, 9))))
     return dict(pool=pi, ops=ops)
 
@@ -113,18 +118,36 @@ def cases(draw, tier="quick"):
 def render(case, P):
     lines = []
     inval = 0
+    # the last inode that starts in each metadata block: the one that may run over the end of its block
+    last_in_block = {}
+    for r in P["allrefs"]:
+        if (r >> 16) not in last_in_block or r > last_in_block[r >> 16]:
+            last_in_block[r >> 16] = r
+    probe_blk = None
     for kind, a, b, c, inv in case["ops"]:
         bad = inv == 0   # 10%: invalid / out-of-range argument
         if bad:
             inval += 1
         allr, files, dirs = P["allrefs"], P["files"], P["dirs"]
         rnd_ref = ((a * 7919) % (1 << 20)) << 16 | (b % 8192)
-        if kind == "root":
+        if kind == "iprobe":
+            # a lookup that fails only because of its offset, directly followed by the inode at the end of the same block
+            blk = P["blocks"][a % len(P["blocks"])]
+            lines.append("inode %d" % ((blk << 16) | (8192 + b % 50000)))
+            inval += 1
+            if blk in last_in_block:
+                lines.append("inode %d" % last_in_block[blk])
+        elif kind == "root":
             lines.append("root")
         elif kind == "inode":
             if bad and c % 3 == 1:
                 # a real metadata block, offset beyond its unpacked size: the lookup fails after the block was loaded
-                ref = (P["blocks"][a % len(P["blocks"])] << 16) | (8192 + b % 50000)
+                probe_blk = P["blocks"][a % len(P["blocks"])]
+                ref = (probe_blk << 16) | (8192 + b % 50000)
+            elif not bad and probe_blk in last_in_block and c % 2 == 0:
+                # right after such a failure: the inode at the end of that very block
+                ref = last_in_block[probe_blk]
+                probe_blk = None
             elif bad and c % 3 == 2:
                 # a real metadata block, offset inside it but not at an inode
                 ref = (P["blocks"][a % len(P["blocks"])] << 16) | (b % 8192)
